@@ -255,7 +255,7 @@ func senderSpace(first int) {
 
 // product: sender-legal streams to the fixpoint.
 func product() {
-	b := &engine.BFS{NumOps: len(ls.Classes), MaxStates: 200000, Stop: func() bool { return ctx.ViolationCount() > 0 }}
+	b := &engine.BFS{NumOps: len(ls.Classes), MaxStates: 200000, MaxTransitions: 1000000, Stop: func() bool { return ctx.ViolationCount() > 0 }}
 	cfgOpts := ls.All(buf)
 	b.Run = func(path []uint16) (string, bool) {
 		snd := refmidi.NewSender(buf)
